@@ -132,7 +132,10 @@ def _run_shard(prop, idx, tier, seed, t_end):
         for lab in res.labels:
             st["labels"][lab] += 1
         for k, v in res.info.items():
-            st["info"][k] += v
+            if k.startswith("max_"):
+                st["info"][k] = max(st["info"][k], v)
+            else:
+                st["info"][k] += v
         if res.nontrivial:
             h = case_hash(case)
             if h not in st["nontrivial"]:
@@ -328,7 +331,11 @@ def main_check(prop, tier, seed, only=None, jobs=None):
         evals += r["evals"]
         nontrivial.update(f"{r['name']}:{h}" for h in r["nontrivial"])
         labels.update(r["labels"])
-        info.update(r["info"])
+        for k, v in r["info"].items():
+            if k.startswith("max_"):
+                info[k] = max(info[k], v)
+            else:
+                info[k] += v
         known_hits.update(r["known"])
         exhaustive_all = exhaustive_all and r["exhaustive"]
         for s in r["samples"]:
